@@ -513,7 +513,8 @@ class SimSocket:
         k._check_abort()
         if self.closed:
             raise OSError(errno.EBADF, "Bad file descriptor")
-        if self.conn is None:
+        if self.conn is None or self.rx_reset:
+            # (after the peer's RST has arrived the endpoint is no longer connected: shutdown(2) fails, close(2) still works)
             raise OSError(errno.ENOTCONN, "Transport endpoint is not connected")
         k.ev("shutdown", self.fd, int(how))
         if how in (_rs.SHUT_RD, _rs.SHUT_RDWR):
